@@ -15,7 +15,7 @@ def c18(tier):
               assumptions=["extern \"C\" library functions (cfitsio, CHOLMOD, libc) do not raise C++ exceptions",
                            "libstdc++ algorithms on scalar ranges listed in core.NOTHROW_TABLE do not raise"])
     P = core.load(tier=tier, extra_units=selftest.UNITS)
-    selftest.run(P, C, ('cw1', 'nl1'))
+    selftest.run(P, C, ('cw1', 'nl1', 'ts2'))
     cw.run(P, C)
     C.extra["fitter_returns_checked"] = tc.run(P, C)
     # the wrappers forward to member functions on tables built by any populating operation: none of them may trip over an array
@@ -32,6 +32,9 @@ def c18(tier):
     ed.rh2(P, C)
     # a handle that was only initialised holds an empty table: the wrapped lookup / grid evaluation must fail, not crash the process
     pm.es2(P, C)
+    # readsplinefitstable constructs the table from the path: a constructor that throws runs no destructor, so the read itself has to
+    # release what it had built (the window rule on the read path)
+    ts.ts2(P, C, only=("read_fits", "read_fits_mem", "read_fits_core", "splinetable(std::string,photospline::splinetable)"), rule_floor=4)
     C.extra["units"] = sorted(P.units.keys())
     C.extra["functions_analysed"] = len(P.functions)
     return C.finish()
@@ -135,6 +138,7 @@ def c20(tier):
     ts.ts3b(P, C)
     nl.nl1(P, C)
     nl.nl2(P, C)
+    nl.nl3(P, C)
     # invalid arguments of convolve are refused before anything is read or changed
     uw.vg4(P, C)
     # a FITS handle opened by a failed operation is closed on every path (all memory *and* handles are returned)
@@ -437,6 +441,7 @@ def c14(tier):
     uw.uw6(P, C)
     uw.uw7(P, C)
     uw.uw8(P, C)
+    uw.uw9(P, C)
     uw.vg4(P, C)
     ts.ts2(P, C, only=("convolve",), rule_floor=1)
     cw.cw1(P, C, only=("splinetable_convolve",))
@@ -529,6 +534,7 @@ def c17(tier):
     C.extra["not_decided"] = ["numerical agreement with pointwise evaluation", "slicemultiply index arithmetic"]
     ge.ge5(P, C)
     ge.ge6(P, C)
+    ge.ge7(P, C)
     return C.finish()
 
 
@@ -549,6 +555,7 @@ def c09(tier):
     ge.ge3(P, C)
     gw.iw1(P, C)
     ge.gw8(P, C)
+    ge.ge7(P, C)
     C.extra["units"] = sorted(P.units.keys())
     C.extra["not_decided"] = ["optimality", "polynomial reproduction", "index arithmetic of box/slicemultiply/kronecker_product", "divided_diffs formula"]
     return C.finish()
